@@ -297,6 +297,54 @@ Proof.
   destruct Hin as [v' Hin]. specialize (Hf _ Hin). cbn in Hf. congruence.
 Qed.
 
+(* ---- the rejection clauses, at any schema path ---- *)
+
+Lemma type_confusion_rejected : forall (S S' : schema) (p : list pe) (t : jtype) (spec v : json),
+  sub_at S p = Some S' -> c_type (s_c S') = Some t ->
+  In v (at_path p spec) -> has_type t v = false ->
+  validate S spec <> None.
+Proof.
+  intros S S' p t spec v Hs Ht Hin Hbad.
+  exact (invalid_sub p S S' spec v Hs Hin (invalid_type_here S' t v Ht Hbad)).
+Qed.
+
+Lemma missing_required_rejected : forall (S S' : schema) (p : list pe) (k : string) (spec : json) kvs,
+  sub_at S p = Some S' -> In k (c_required (s_c S')) ->
+  In (JMap kvs) (at_path p spec) -> has_key kvs k = false ->
+  validate S spec <> None.
+Proof.
+  intros S S' p k spec kvs Hs Hreq Hin Hno.
+  exact (invalid_sub p S S' spec (JMap kvs) Hs Hin (invalid_required_here S' kvs k Hreq Hno)).
+Qed.
+
+Lemma oversized_list_rejected : forall (S S' : schema) (p : list pe) (n : nat) (spec : json) l,
+  sub_at S p = Some S' -> c_maxitems (s_c S') = Some n ->
+  In (JList l) (at_path p spec) -> n < List.length l ->
+  validate S spec <> None.
+Proof.
+  intros S S' p n spec l Hs Hm Hin Hlt.
+  exact (invalid_sub p S S' spec (JList l) Hs Hin (invalid_maxitems_here S' l n Hm Hlt)).
+Qed.
+
+Lemma overlong_string_rejected : forall (S S' : schema) (p : list pe) (n : nat) (spec : json) s,
+  sub_at S p = Some S' -> c_maxlen (s_c S') = Some n ->
+  In (JStr s) (at_path p spec) -> n < py_len s ->
+  validate S spec <> None.
+Proof.
+  intros S S' p n spec s Hs Hm Hin Hlt.
+  exact (invalid_sub p S S' spec (JStr s) Hs Hin (invalid_maxlen_here S' s n Hm Hlt)).
+Qed.
+
+Lemma unknown_key_rejected_where_closed : forall (S S' : schema) (p : list pe) (k : string) (spec : json) kvs,
+  sub_at S p = Some S' -> c_addl (s_c S') = false ->
+  In (JMap kvs) (at_path p spec) -> has_key kvs k = true ->
+  match s_props S' with Some ps => has_key ps k | None => false end = false ->
+  validate S spec <> None.
+Proof.
+  intros S S' p k spec kvs Hs Ha Hin Hk Hno.
+  exact (invalid_sub p S S' spec (JMap kvs) Hs Hin (invalid_addl_here S' kvs k Ha Hk Hno)).
+Qed.
+
 (* ---- default filling ---- *)
 
 Lemma has_type_fill : forall t s j, has_type t (fill s j) = has_type t j.
@@ -572,6 +620,36 @@ Lemma rt_int64_not_guaranteed :
   at_path [Key "template"%string; Key "big"%string] (fill S_ResourceTemplate rt_bigint_witness)
     = [JInt (2 ^ 70)] /\ int64 (2 ^ 70) = false.
 Proof. vm_compute. auto. Qed.
+
+Lemma foreach_condition_refuted :
+  exists spec, validate S_Workflow spec = None /\
+               fact_holds fact_foreach_condition (fill S_Workflow spec) = false.
+Proof. exists wf_foreach_condition_witness. exact (proj2 foreach_condition_not_guaranteed). Qed.
+
+Lemma ft_delay_refuted :
+  exists spec, validate S_FunctionTest spec = None /\
+               forallb strict_int (at_path path_ft_delay (fill S_FunctionTest spec)) = false.
+Proof.
+  exists ft_delay_witness.
+  split; [exact (proj1 ft_delay_not_strict_int) | exact (proj2 (proj2 ft_delay_not_strict_int))].
+Qed.
+
+Lemma int64_refuted :
+  exists spec z, validate S_ResourceTemplate spec = None /\
+                 at_path [Key "template"%string; Key "big"%string] (fill S_ResourceTemplate spec) = [JInt z] /\
+                 int64 z = false.
+Proof. exists rt_bigint_witness, (2 ^ 70)%Z. exact rt_int64_not_guaranteed. Qed.
+
+Lemma gate_rejects_bundled : forall (k : kind) (spec : json) (rule : string),
+  validate (schema_of k) spec = Some rule ->
+  prepare_gate (schema_of k) spec = Rejected rule [].
+Proof. intros k. exact (gate_rejects (schema_of k)). Qed.
+
+Lemma gate_total_bundled : forall (k : kind) (spec : json),
+  (exists rule, prepare_gate (schema_of k) spec = Rejected rule []) \/
+  (validate (schema_of k) spec = None /\
+   prepare_gate (schema_of k) spec = Proceeds (fill (schema_of k) spec)).
+Proof. intros k. exact (gate_total (schema_of k)). Qed.
 
 (* ---- non-vacuity material ---- *)
 
